@@ -14,13 +14,19 @@ def frontOp? (name : String) (ws : List String) : Option FrontOp :=
   | "send", [] => some .send
   | _, _ => none
 
-/-- `s:<hex>` send, `f:<hex>` feed, `e` end session, `d` delete the session -/
+/-- `s:<hex>` send, `f:<hex>` feed, `e` end session, `d` delete the session, `r:`/`m:`/`u:` change the node tree -/
 def act? (t : String) : Option Act :=
   if t == "e" then some .endS
   else if t == "d" then some .del
   else if t.startsWith "s:" then (bytesOfHex (t.drop 2).toString).map .send
   else if t.startsWith "f:" then (bytesOfHex (t.drop 2).toString).map .feed
-  else none
+  else
+    -- handlers that change the node tree: `r:<i>` deleteNode, `m:<p>:<c>:<hex>` mountNode, `u:<p>:<hex>` umountNode
+    match t.splitOn ":" with
+    | ["r", i] => do pure (.rm (← i.toNat?))
+    | ["m", p, c, n] => do pure (.mnt (← p.toNat?) (← c.toNat?) (← bytesOfHex n))
+    | ["u", p, n] => do pure (.umnt (← p.toNat?) (← bytesOfHex n))
+    | _ => none
 
 /-- the kernel's answers of one read event: `-`, or comma separated chunk sizes, optionally ended by a letter:
 `a` EAGAIN, `z` end of file, `r` ECONNRESET, `i` EINTR (transient like EAGAIN: the connection stays, fix 1c1abc6), `o` EIO -/
